@@ -4,7 +4,8 @@ import Aiortc.Lemmas.C01.SctpInv
 
 One call of `receiveData c` on an endpoint state whose receive fields are `(rx, inStreams)` ends — when the
 pure `Recv.step` returns `ok (r', msgs)` — by running `deliver msgs` on a state whose receive fields are `r'`.
-(That `deliver`, i.e. `_data_channel_receive`, does not touch `rx` / `inStreams` is not proved here.)
+(`dcReceive_user`: `_data_channel_receive` of a user message — even with an application handler that re-enters
+`send()` — does not touch `rx` / `inStreams`; for DCEP control messages this is not proved here.)
 -/
 set_option linter.unusedSimpArgs false
 namespace Aiortc.Sctp
@@ -144,14 +145,93 @@ theorem receiveData_refines (c : RChunk) (e : Ep) (l : List Out) (rx : Rx) (r' :
       | crash k => rw [hadd] at hstep; cases hstep
       | hang => rw [hadd] at hstep; cases hstep
 
-/-- `_data_channel_receive` of the endpoint automaton on anything but a non-empty DCEP message: the endpoint state
-is unchanged and the only possible output is one `message` event, on the channel registered for the stream,
-carrying exactly what `decodeUser` says (value and str/bytes type). -/
-theorem dcReceive_user (sid ppid : Nat) (data : Bytes) (e : Ep) (l : List Out)
-    (h : (ppid = WEBRTC_DCEP && !data.isEmpty) = false) :
-    ∃ res evs, (dcReceive sid ppid data).run.run (e, l) = (res, (e, l ++ evs))
-      ∧ ∀ ev ∈ evs, ∃ i b d, ev = Out.evMessage i b d ∧ decodeUser ppid data = some (b, d)
-          ∧ dictGet e.dataChannels sid = some i := by
+/-! ## application handlers that re-enter `send()` -/
+
+/-- The reaction an event of kind `k` on channel `i` would consume. -/
+def reactPick (k i : Nat) (e : Ep) : Option (Nat × Nat × Bool × Bytes) :=
+  e.reactions.find? (fun r => r.1 == k && (k == 4 || r.2.1 == i))
+
+theorem react_none (k i : Nat) (e : Ep) (l : List Out) (h : reactPick k i e = none) :
+    (react k i).run.run (e, l) = (.ok (), (e, l)) := by
+  unfold reactPick at h
+  unfold react
+  simp only [bind, ExceptT.bind, ExceptT.mk, ExceptT.run, ExceptT.bindCont, StateT.bind, StateT.run, modE, getE, setE,
+    modify, modifyGet, MonadStateOf.modifyGet, StateT.modifyGet, pure, ExceptT.pure, StateT.pure, get, getThe,
+    MonadStateOf.get, StateT.get, liftM, monadLift, MonadLift.monadLift, ExceptT.lift, Functor.map, StateT.map, h]
+
+theorem react_nochan (k i : Nat) (e : Ep) (l : List Out) (r : Nat × Nat × Bool × Bytes)
+    (h : reactPick k i e = some r) (hc : e.chans[i]? = none) :
+    (react k i).run.run (e, l) = (.error "IndexError", ({ e with reactions := e.reactions.erase r }, l)) := by
+  unfold reactPick at h
+  unfold react
+  simp only [bind, ExceptT.bind, ExceptT.mk, ExceptT.run, ExceptT.bindCont, StateT.bind, StateT.run, modE, getE, setE,
+    modify, modifyGet, MonadStateOf.modifyGet, StateT.modifyGet, pure, ExceptT.pure, StateT.pure, get, getThe,
+    MonadStateOf.get, StateT.get, liftM, monadLift, MonadLift.monadLift, ExceptT.lift, Functor.map, StateT.map, h,
+    chanGet, emit, crash, throw, throwThe, MonadExceptOf.throw, hc]
+
+theorem react_closed (k i : Nat) (e : Ep) (l : List Out) (r : Nat × Nat × Bool × Bytes) (c : Chan)
+    (h : reactPick k i e = some r) (hc : e.chans[i]? = some c) (hr : c.ready ≠ 1) :
+    (react k i).run.run (e, l)
+      = (.ok (), ({ e with reactions := e.reactions.erase r }, l ++ [.rexc i "InvalidStateError"])) := by
+  unfold reactPick at h
+  unfold react
+  simp only [bind, ExceptT.bind, ExceptT.mk, ExceptT.run, ExceptT.bindCont, StateT.bind, StateT.run, modE, getE, setE,
+    modify, modifyGet, MonadStateOf.modifyGet, StateT.modifyGet, pure, ExceptT.pure, StateT.pure, get, getThe,
+    MonadStateOf.get, StateT.get, liftM, monadLift, MonadLift.monadLift, ExceptT.lift, Functor.map, StateT.map, h,
+    chanGet, emit, crash, throw, throwThe, MonadExceptOf.throw, hc, hr, ne_eq, not_false_eq_true, if_true]
+
+theorem userData_len (isStr : Bool) (d : Bytes) : 1 ≤ (userData isStr d).2.length := by
+  unfold userData
+  cases d with
+  | nil => simp
+  | cons a t => simp
+
+theorem react_send (k i : Nat) (e : Ep) (l : List Out) (r : Nat × Nat × Bool × Bytes) (c : Chan)
+    (h : reactPick k i e = some r) (hc : e.chans[i]? = some c) (hr : c.ready = 1) :
+    (react k i).run.run (e, l)
+      = (.ok (), ({ e with reactions := e.reactions.erase r
+                           chans := e.chans.set i { c with buffered := c.buffered + ((userData r.2.2.1 r.2.2.2).2.length : Int) }
+                           dcQueue := e.dcQueue ++ [(i, (userData r.2.2.1 r.2.2.2).1, (userData r.2.2.1 r.2.2.2).2)]
+                           tasks := e.tasks ++ [Task.flush] },
+                  l ++ [.task "data_channel_flush"])) := by
+  have hlen := userData_len r.2.2.1 r.2.2.2
+  have hcross : (decide (c.buffered > (c.threshold : Int))
+      && decide (c.buffered + ((userData r.2.2.1 r.2.2.2).2.length : Int) ≤ (c.threshold : Int))) = false := by
+    rw [Bool.and_eq_false_iff]
+    by_cases hb : c.buffered > (c.threshold : Int)
+    · right; simp only [decide_eq_false_iff_not]; omega
+    · left; simp [hb]
+  unfold reactPick at h
+  unfold react dcSend addBuffered0 addBufferedCore queueTask
+  simp only [bind, ExceptT.bind, ExceptT.mk, ExceptT.run, ExceptT.bindCont, StateT.bind, StateT.run, modE, getE, setE,
+    modify, modifyGet, MonadStateOf.modifyGet, StateT.modifyGet, pure, ExceptT.pure, StateT.pure, get, getThe,
+    MonadStateOf.get, StateT.get, liftM, monadLift, MonadLift.monadLift, ExceptT.lift, Functor.map, StateT.map, h,
+    chanGet, chanSet, emit, crash, throw, throwThe, MonadExceptOf.throw, hc, hr, ne_eq, not_true_eq_false, if_false,
+    hcross, Bool.false_and, Bool.false_eq_true]
+
+theorem dcReceive_user_fire (sid ppid : Nat) (data : Bytes) (e : Ep) (l : List Out) (i : Nat) (ch : Chan)
+    (b : Bool) (d : Bytes)
+    (h : (ppid = WEBRTC_DCEP && !data.isEmpty) = false) (hch : dictGet e.dataChannels sid = some i)
+    (hc : e.chans[i]? = some ch) (hlive : (!ch.silent && decide (ch.ready ≠ 3)) = true)
+    (hdec : decodeUser ppid data = some (b, d)) :
+    (dcReceive sid ppid data).run.run (e, l) = (react 3 i).run.run (e, l ++ [Out.evMessage i b d]) := by
+  unfold dcReceive
+  simp only [bind, ExceptT.bind, ExceptT.mk, ExceptT.run, ExceptT.bindCont, StateT.bind, StateT.run, modE, getE, setE,
+    modify, modifyGet, MonadStateOf.modifyGet, StateT.modifyGet, pure, ExceptT.pure, StateT.pure, get, getThe,
+    MonadStateOf.get, StateT.get, liftM, monadLift, MonadLift.monadLift, ExceptT.lift, Functor.map, StateT.map,
+    h, Bool.false_eq_true, if_false, chanGet, emit, crash, throw, throwThe, MonadExceptOf.throw, hch, hc, hlive, if_true]
+  unfold decodeUser at hdec
+  rw [h] at hdec
+  simp only [Bool.false_eq_true, if_false] at hdec
+  by_cases hu : utf8Valid data = true
+  all_goals (repeat' split)
+  all_goals (first | (simp_all; done) | (simp_all <;> rfl))
+
+theorem dcReceive_user_quiet (sid ppid : Nat) (data : Bytes) (e : Ep) (l : List Out)
+    (h : (ppid = WEBRTC_DCEP && !data.isEmpty) = false)
+    (hq : ∀ i ch, dictGet e.dataChannels sid = some i → e.chans[i]? = some ch →
+      (!ch.silent && decide (ch.ready ≠ 3)) = true → decodeUser ppid data = none) :
+    ∃ res, (dcReceive sid ppid data).run.run (e, l) = (res, (e, l)) := by
   unfold dcReceive
   cases hch : dictGet e.dataChannels sid with
   | none =>
@@ -159,7 +239,7 @@ theorem dcReceive_user (sid ppid : Nat) (data : Bytes) (e : Ep) (l : List Out)
       modify, modifyGet, MonadStateOf.modifyGet, StateT.modifyGet, pure, ExceptT.pure, StateT.pure, get, getThe,
       MonadStateOf.get, StateT.get, liftM, monadLift, MonadLift.monadLift, ExceptT.lift, Functor.map, StateT.map,
       h, Bool.false_eq_true, if_false, hch]
-    exact ⟨_, [], by first | (rw [List.append_nil]; rfl) | rw [List.append_nil], by simp⟩
+    exact ⟨_, rfl⟩
   | some i =>
     cases hc : e.chans[i]? with
     | none =>
@@ -167,18 +247,265 @@ theorem dcReceive_user (sid ppid : Nat) (data : Bytes) (e : Ep) (l : List Out)
         modify, modifyGet, MonadStateOf.modifyGet, StateT.modifyGet, pure, ExceptT.pure, StateT.pure, get, getThe,
         MonadStateOf.get, StateT.get, liftM, monadLift, MonadLift.monadLift, ExceptT.lift, Functor.map, StateT.map,
         h, Bool.false_eq_true, if_false, chanGet, emit, crash, throw, throwThe, MonadExceptOf.throw, hch, hc]
-      exact ⟨_, [], by first | (rw [List.append_nil]; rfl) | rw [List.append_nil], by simp⟩
+      exact ⟨_, rfl⟩
     | some ch =>
-      simp only [bind, ExceptT.bind, ExceptT.mk, ExceptT.run, ExceptT.bindCont, StateT.bind, StateT.run, modE, getE, setE,
-        modify, modifyGet, MonadStateOf.modifyGet, StateT.modifyGet, pure, ExceptT.pure, StateT.pure, get, getThe,
-        MonadStateOf.get, StateT.get, liftM, monadLift, MonadLift.monadLift, ExceptT.lift, Functor.map, StateT.map,
-        h, Bool.false_eq_true, if_false, chanGet, emit, crash, throw, throwThe, MonadExceptOf.throw, hch, hc]
-      repeat' split
-      all_goals first
-        | exact ⟨_, [], by first | (rw [List.append_nil]; rfl) | rw [List.append_nil], by simp⟩
-        | exact ⟨_, [_], rfl, by
-            intro ev hev
-            rw [List.mem_singleton] at hev
-            exact ⟨_, _, _, hev, by simp_all [decodeUser], by first | exact hch | rfl⟩⟩
+      cases hlive : (!ch.silent && decide (ch.ready ≠ 3)) with
+      | false =>
+        simp only [bind, ExceptT.bind, ExceptT.mk, ExceptT.run, ExceptT.bindCont, StateT.bind, StateT.run, modE, getE, setE,
+          modify, modifyGet, MonadStateOf.modifyGet, StateT.modifyGet, pure, ExceptT.pure, StateT.pure, get, getThe,
+          MonadStateOf.get, StateT.get, liftM, monadLift, MonadLift.monadLift, ExceptT.lift, Functor.map, StateT.map,
+          h, Bool.false_eq_true, if_false, chanGet, emit, crash, throw, throwThe, MonadExceptOf.throw, hch, hc, hlive]
+        repeat' split
+        all_goals exact ⟨_, rfl⟩
+      | true =>
+        have hdec := hq i ch hch hc hlive
+        unfold decodeUser at hdec
+        rw [h] at hdec
+        simp only [Bool.false_eq_true, if_false] at hdec
+        simp only [bind, ExceptT.bind, ExceptT.mk, ExceptT.run, ExceptT.bindCont, StateT.bind, StateT.run, modE, getE, setE,
+          modify, modifyGet, MonadStateOf.modifyGet, StateT.modifyGet, pure, ExceptT.pure, StateT.pure, get, getThe,
+          MonadStateOf.get, StateT.get, liftM, monadLift, MonadLift.monadLift, ExceptT.lift, Functor.map, StateT.map,
+          h, Bool.false_eq_true, if_false, chanGet, emit, crash, throw, throwThe, MonadExceptOf.throw, hch, hc, hlive, if_true]
+        by_cases hu : utf8Valid data = true
+        all_goals (repeat' split)
+        all_goals (first | exact ⟨_, rfl⟩ | (exfalso; simp_all))
 
+/-- What one run of an application handler (a one-shot reaction sending on channel `i`) may change: nothing but
+`reactions` (one consumed), `chans[i].buffered` (increased), `dcQueue` (one user-data entry for channel `i` appended)
+and `tasks` (one `flush` appended). -/
+structure ReactFrame (i : Nat) (e e' : Ep) : Prop where
+  rest : e' = { e with reactions := e'.reactions, chans := e'.chans, dcQueue := e'.dcQueue, tasks := e'.tasks }
+  reactions : e'.reactions = e.reactions ∨ ∃ r ∈ e.reactions, e'.reactions = e.reactions.erase r
+  chans : e'.chans = e.chans ∨ ∃ (c : Chan) (a : Int), e.chans[i]? = some c ∧ 0 < a
+    ∧ e'.chans = e.chans.set i { c with buffered := c.buffered + a }
+  dcQueue : e'.dcQueue = e.dcQueue
+    ∨ ∃ isStr d, e'.dcQueue = e.dcQueue ++ [(i, (userData isStr d).1, (userData isStr d).2)]
+  tasks : e'.tasks = e.tasks ∨ e'.tasks = e.tasks ++ [Task.flush]
+
+theorem ReactFrame.refl (i : Nat) (e : Ep) : ReactFrame i e e :=
+  ⟨rfl, Or.inl rfl, Or.inl rfl, Or.inl rfl, Or.inl rfl⟩
+
+/-- In particular the receive side, the SACK flag, the stream table and the sender are untouched. -/
+theorem ReactFrame.fields {i : Nat} {e e' : Ep} (h : ReactFrame i e e') :
+    e'.rx = e.rx ∧ e'.inStreams = e.inStreams ∧ e'.sackNeeded = e.sackNeeded ∧ e'.dataChannels = e.dataChannels
+      ∧ e'.tx = e.tx ∧ e'.rwnd = e.rwnd ∧ e'.assoc = e.assoc := by
+  have h1 := congrArg Ep.rx h.rest
+  have h2 := congrArg Ep.inStreams h.rest
+  have h3 := congrArg Ep.sackNeeded h.rest
+  have h4 := congrArg Ep.dataChannels h.rest
+  have h5 := congrArg Ep.tx h.rest
+  have h6 := congrArg Ep.rwnd h.rest
+  have h7 := congrArg Ep.assoc h.rest
+  exact ⟨h1, h2, h3, h4, h5, h6, h7⟩
+
+/-- Outputs of a handler: queued tasks and exceptions that stay inside the handler. -/
+def IsHandlerOut (o : Out) : Prop := (∃ n, o = Out.task n) ∨ ∃ j k, o = Out.rexc j k
+
+theorem react_frame (k i : Nat) (e : Ep) (l : List Out) :
+    ∃ res e' outs, (react k i).run.run (e, l) = (res, (e', l ++ outs)) ∧ ReactFrame i e e'
+      ∧ ∀ o ∈ outs, IsHandlerOut o := by
+  cases hp : reactPick k i e with
+  | none => exact ⟨_, e, [], by rw [react_none k i e l hp, List.append_nil], ReactFrame.refl i e, by simp⟩
+  | some r =>
+    have hr : r ∈ e.reactions := List.mem_of_find?_eq_some hp
+    cases hc : e.chans[i]? with
+    | none =>
+      exact ⟨_, { e with reactions := e.reactions.erase r }, [], by rw [react_nochan k i e l r hp hc, List.append_nil],
+        ⟨rfl, Or.inr ⟨r, hr, rfl⟩, Or.inl rfl, Or.inl rfl, Or.inl rfl⟩, by simp⟩
+    | some c =>
+      by_cases hrd : c.ready = 1
+      · refine ⟨_, _, [Out.task "data_channel_flush"], react_send k i e l r c hp hc hrd,
+          ⟨rfl, Or.inr ⟨r, hr, rfl⟩, Or.inr ⟨c, _, hc, ?_, rfl⟩, Or.inr ⟨r.2.2.1, r.2.2.2, rfl⟩, Or.inr rfl⟩, ?_⟩
+        · have := userData_len r.2.2.1 r.2.2.2; omega
+        · intro o ho; rw [List.mem_singleton] at ho; exact Or.inl ⟨_, ho⟩
+      · refine ⟨_, _, [Out.rexc i "InvalidStateError"], react_closed k i e l r c hp hc hrd,
+          ⟨rfl, Or.inr ⟨r, hr, rfl⟩, Or.inl rfl, Or.inl rfl, Or.inl rfl⟩, ?_⟩
+        intro o ho; rw [List.mem_singleton] at ho; exact Or.inr ⟨_, _, ho⟩
+
+/-- `_data_channel_receive` of the endpoint automaton on anything but a non-empty DCEP message, with application
+handlers that may re-enter `send()`: either nothing happens at all, or exactly ONE `message` event is emitted, on the
+channel registered for the stream, carrying what `decodeUser` says (value and str/bytes type), followed only by
+handler outputs (`task` / `rexc`); the state changes at most as a handler may change it (`ReactFrame`: one reaction
+consumed, `chans[i].buffered`, one `dcQueue` entry, one `flush` task) — `rx`, `inStreams`, `sackNeeded`,
+`dataChannels`, `tx` are unchanged (`ReactFrame.fields`). -/
+theorem dcReceive_user (sid ppid : Nat) (data : Bytes) (e : Ep) (l : List Out)
+    (h : (ppid = WEBRTC_DCEP && !data.isEmpty) = false) :
+    ∃ res e' evs, (dcReceive sid ppid data).run.run (e, l) = (res, (e', l ++ evs))
+      ∧ ((evs = [] ∧ e' = e) ∨
+         ∃ i b d tail, evs = Out.evMessage i b d :: tail ∧ decodeUser ppid data = some (b, d)
+           ∧ dictGet e.dataChannels sid = some i ∧ ReactFrame i e e' ∧ ∀ o ∈ tail, IsHandlerOut o) := by
+  by_cases hfire : ∃ i ch b d, dictGet e.dataChannels sid = some i ∧ e.chans[i]? = some ch
+      ∧ (!ch.silent && decide (ch.ready ≠ 3)) = true ∧ decodeUser ppid data = some (b, d)
+  · obtain ⟨i, ch, b, d, hch, hc, hlive, hdec⟩ := hfire
+    obtain ⟨res, e', outs, hrun, hfr, houts⟩ := react_frame 3 i e (l ++ [Out.evMessage i b d])
+    refine ⟨res, e', Out.evMessage i b d :: outs, ?_, Or.inr ⟨i, b, d, outs, rfl, hdec, hch, hfr, houts⟩⟩
+    rw [dcReceive_user_fire sid ppid data e l i ch b d h hch hc hlive hdec, hrun, List.append_assoc]
+    rfl
+  · obtain ⟨res, hrun⟩ := dcReceive_user_quiet sid ppid data e l h (by
+      intro i ch hch hc hlive
+      cases hdec : decodeUser ppid data with
+      | none => rfl
+      | some v => exact absurd ⟨i, ch, v.1, v.2, hch, hc, hlive, hdec⟩ hfire)
+    exact ⟨res, e, [], by rw [hrun, List.append_nil], Or.inl ⟨rfl, rfl⟩⟩
+/-! ## `deliver` with echo handlers -/
+
+/-- one iteration of the `for` loop of `deliver` -/
+def deliver1 (m : Msg) : M Unit := do
+  modE fun e => { e with rwnd := e.rwnd + m.data.length }
+  dcReceive m.sid m.ppid m.data
+
+theorem deliver_cons (m : Msg) (ms : List Msg) (s : Ep × List Out) :
+    (deliver (m :: ms)).run.run s =
+      match (deliver1 m).run.run s with
+      | (.ok _, s') => (deliver ms).run.run s'
+      | (.error k, s') => (.error k, s') := by
+  unfold deliver deliver1
+  simp only [List.forIn_cons, bind, ExceptT.bind, ExceptT.mk, ExceptT.run, ExceptT.bindCont, StateT.bind, StateT.run,
+    modE, modify, modifyGet, MonadStateOf.modifyGet, StateT.modifyGet, pure, ExceptT.pure, StateT.pure, liftM, monadLift,
+    MonadLift.monadLift, ExceptT.lift, Functor.map, StateT.map]
+  cases h : dcReceive m.sid m.ppid m.data ({ s.1 with rwnd := s.1.rwnd + m.data.length }, s.2) with
+  | mk res s' =>
+    cases res with
+    | ok u => simp only [h]; rfl
+    | error k => simp only [h]; rfl
+
+theorem deliver1_run (m : Msg) (e : Ep) (l : List Out) :
+    (deliver1 m).run.run (e, l)
+      = (dcReceive m.sid m.ppid m.data).run.run ({ e with rwnd := e.rwnd + m.data.length }, l) := rfl
+
+theorem filter_erase_find {α : Type} [BEq α] [LawfulBEq α] (p : α → Bool) : ∀ (l : List α) (r : α),
+    l.find? p = some r → (l.erase r).filter p = (l.filter p).tail := by
+  intro l
+  induction l with
+  | nil => intro r h; simp at h
+  | cons a t ih =>
+    intro r h
+    rw [List.find?_cons] at h
+    cases hp : p a with
+    | true =>
+      rw [hp] at h
+      simp only [Option.some.injEq] at h
+      subst h
+      simp [List.filter_cons, hp]
+    | false =>
+      rw [hp] at h
+      simp only at h
+      have hne : (a == r) = false := by
+        have hr : p r = true := List.find?_some h
+        cases hbe : (a == r) with
+        | false => rfl
+        | true => have := eq_of_beq hbe; subst this; rw [hp] at hr; cases hr
+      rw [List.erase_cons, hne]
+      simp only [Bool.false_eq_true, if_false, List.filter_cons, hp]
+      exact ih r h
+
+/-- The armed `message` handlers of channel `i`, in arming order. -/
+def echoes (i : Nat) (e : Ep) : List (Nat × Nat × Bool × Bytes) :=
+  e.reactions.filter (fun r => r.1 == 3 && ((3 : Nat) == 4 || r.2.1 == i))
+
+/-- The `dcQueue` entry a reaction's `send()` appends. -/
+def echoEntry (i : Nat) (r : Nat × Nat × Bool × Bytes) : Nat × Nat × Bytes :=
+  (i, (userData r.2.2.1 r.2.2.2).1, (userData r.2.2.1 r.2.2.2).2)
+
+/-- Stream `sid` belongs to an open channel `i` whose application handlers are attached. -/
+def EchoReady (sid i : Nat) (e : Ep) : Prop :=
+  dictGet e.dataChannels sid = some i ∧ ∃ c, e.chans[i]? = some c ∧ c.silent = false ∧ c.ready = 1
+
+/-- The `message` events among the outputs, in order. -/
+def msgEvents : List Out → List (Nat × Bool × Bytes)
+  | [] => []
+  | Out.evMessage i b d :: t => (i, b, d) :: msgEvents t
+  | _ :: t => msgEvents t
+
+theorem msgEvents_append (a b : List Out) : msgEvents (a ++ b) = msgEvents a ++ msgEvents b := by
+  induction a with
+  | nil => rfl
+  | cons x t ih =>
+    cases x <;> simp [msgEvents, ih]
+
+/-- One delivered user message on a ready channel with an armed echo handler. -/
+theorem deliver1_echo (sid i : Nat) (m : Msg) (e : Ep) (l : List Out) (b : Bool) (d : Bytes)
+    (r : Nat × Nat × Bool × Bytes) (rs : List (Nat × Nat × Bool × Bytes))
+    (hready : EchoReady sid i e) (hsid : m.sid = sid)
+    (hnd : (m.ppid = WEBRTC_DCEP && !m.data.isEmpty) = false) (hdec : decodeUser m.ppid m.data = some (b, d))
+    (hech : echoes i e = r :: rs) :
+    ∃ e', (deliver1 m).run.run (e, l)
+        = (.ok (), (e', l ++ [Out.evMessage i b d, Out.task "data_channel_flush"]))
+      ∧ e'.dcQueue = e.dcQueue ++ [echoEntry i r] ∧ echoes i e' = rs ∧ EchoReady sid i e'
+      ∧ e'.rx = e.rx ∧ e'.inStreams = e.inStreams := by
+  obtain ⟨hch, c, hc, hsil, hrd⟩ := hready
+  have hlive : (!c.silent && decide (c.ready ≠ 3)) = true := by simp [hsil, hrd]
+  have hpick : reactPick 3 i { e with rwnd := e.rwnd + m.data.length } = some r := by
+    unfold reactPick
+    have := List.head?_filter (p := fun r : Nat × Nat × Bool × Bytes => r.1 == 3 && ((3 : Nat) == 4 || r.2.1 == i))
+      (l := e.reactions)
+    unfold echoes at hech
+    rw [hech] at this
+    exact this.symm
+  rw [deliver1_run, ← hsid] at *
+  rw [dcReceive_user_fire m.sid m.ppid m.data { e with rwnd := e.rwnd + m.data.length } l i c b d hnd hch hc hlive hdec,
+    react_send 3 i { e with rwnd := e.rwnd + m.data.length } (l ++ [Out.evMessage i b d]) r c hpick hc hrd]
+  refine ⟨{ e with rwnd := e.rwnd + m.data.length, reactions := e.reactions.erase r
+                   chans := e.chans.set i { c with buffered := c.buffered + ((userData r.2.2.1 r.2.2.2).2.length : Int) }
+                   dcQueue := e.dcQueue ++ [echoEntry i r], tasks := e.tasks ++ [Task.flush] },
+    by rw [List.append_assoc]; rfl, rfl, ?_,
+    ⟨hch, { c with buffered := c.buffered + ((userData r.2.2.1 r.2.2.2).2.length : Int) }, ?_, hsil, hrd⟩, rfl, rfl⟩
+  · unfold echoes
+    have := filter_erase_find _ _ r hpick
+    unfold reactPick at hpick
+    simp only at this ⊢
+    unfold echoes at hech
+    rw [this, hech]; rfl
+  · simp only []
+    have hi : i < e.chans.length := by
+      rcases Nat.lt_or_ge i e.chans.length with h | h
+      · exact h
+      · rw [List.getElem?_eq_none h] at hc; cases hc
+    rw [List.getElem?_set_self hi]
+
+/-- Echo handlers preserve order: a list of user messages delivered on one ready channel, with at least as many
+`message` handlers armed as there are messages. Every message is delivered (one `message` event each, in order), the
+`k`-th delivery runs the `k`-th armed handler, and the handlers' re-entrant `send()`s are appended to `dcQueue` in
+exactly that order; the receive side is untouched. -/
+theorem deliver_echo_order (sid i : Nat) : ∀ (msgs : List Msg) (e : Ep) (l : List Out), EchoReady sid i e →
+    (∀ m ∈ msgs, m.sid = sid ∧ (m.ppid = WEBRTC_DCEP && !m.data.isEmpty) = false
+      ∧ (decodeUser m.ppid m.data).isSome = true) →
+    msgs.length ≤ (echoes i e).length →
+    ∃ e' outs, (deliver msgs).run.run (e, l) = (.ok (), (e', l ++ outs))
+      ∧ e'.dcQueue = e.dcQueue ++ ((echoes i e).take msgs.length).map (echoEntry i)
+      ∧ echoes i e' = (echoes i e).drop msgs.length ∧ EchoReady sid i e'
+      ∧ e'.rx = e.rx ∧ e'.inStreams = e.inStreams
+      ∧ msgEvents outs = msgs.filterMap (fun m => (decodeUser m.ppid m.data).map fun v => (i, v.1, v.2)) := by
+  intro msgs
+  induction msgs with
+  | nil =>
+    intro e l hr _ _
+    exact ⟨e, [], by rw [deliver_nil, List.append_nil], by simp, by simp, hr, rfl, rfl, rfl⟩
+  | cons m ms ih =>
+    intro e l hr hall hlen
+    obtain ⟨hsid, hnd, hsome⟩ := hall m (by simp)
+    cases hdec : decodeUser m.ppid m.data with
+    | none => rw [hdec] at hsome; cases hsome
+    | some v =>
+      obtain ⟨b, d⟩ := v
+      cases hech : echoes i e with
+      | nil => rw [hech] at hlen; simp at hlen
+      | cons r rs =>
+        obtain ⟨e1, hrun1, hq1, hech1, hr1, hrx1, hin1⟩ := deliver1_echo sid i m e l b d r rs hr hsid hnd hdec hech
+        have hlen' : ms.length ≤ (echoes i e1).length := by
+          rw [hech1]; rw [hech] at hlen; simpa using hlen
+        obtain ⟨e', outs, hrun, hq, hech', hr', hrx', hin', hev⟩ :=
+          ih e1 (l ++ [Out.evMessage i b d, Out.task "data_channel_flush"]) hr1
+            (fun x hx => hall x (by simp [hx])) hlen'
+        refine ⟨e', [Out.evMessage i b d, Out.task "data_channel_flush"] ++ outs, ?_, ?_, ?_, hr', ?_, ?_, ?_⟩
+        · rw [deliver_cons, hrun1]
+          simp only []
+          rw [hrun, List.append_assoc]
+        · rw [hq, hq1, hech1]
+          simp [List.append_assoc]
+        · rw [hech', hech1]; simp
+        · rw [hrx', hrx1]
+        · rw [hin', hin1]
+        · rw [msgEvents_append, hev]
+          simp [msgEvents, hdec]
 end Aiortc.Sctp
